@@ -39,4 +39,13 @@ if [ "$1" = "--replay" ]; then
   exec "$BIN" "$ID" --replay "$2"
 fi
 TIER="$1"
+if [ "$ID" = "C16" ] && [ "$TIER" = "thorough" ]; then
+  # the inline splitter differs without the `unicode` feature: same check on a second build
+  build "$HERE/harness/target-nounicode" --no-default-features || exit 2
+  SIDE="$HERE/harness/target-nounicode/C16.nounicode.json"
+  VERIF_EVIDENCE_PATH="$SIDE" "$HERE/harness/target-nounicode/release/vcheck" C16 thorough
+  rc=$?
+  [ $rc -eq 0 ] || exit $rc
+  export VERIF_C16_SIDE="$SIDE"
+fi
 exec "$BIN" "$ID" "$TIER"
